@@ -49,6 +49,22 @@ CLAIMED = {
              "the sleep is re-issued with the remainder the call filled in and 0 is returned only after the call returned 0; close() is not "
              "retried. " + DECIDES % "C19",
         technique="scenario-seeded path-sensitive guard dataflow from each blocking call site (must-reach-retry-before-exit), POSIX error-channel table"),
+    "C09": dict(
+        text="Rules C09.1-C09.6 on psocket.c/perror.c: every interruptible call site re-issues the call after EINTR; on a blocking socket a "
+             "would-block result (EAGAIN, mapped through the errno switch recovered from perror.c) leads back to the call through the wait and "
+             "is never reported; the success path returns the system call's result unchanged, buffer and length reach it unmodified and at "
+             "full width; receive_from builds the sender address from the objects recvfrom filled; SIGPIPE is ignored at library "
+             "initialisation or MSG_NOSIGNAL is passed; EAGAIN/EWOULDBLOCK/EINPROGRESS map to the codes the retry logic tests; connected is "
+             "set only after connect==0 or wait+SO_ERROR==0. " + DECIDES % "C09",
+        technique="scenario-seeded guard dataflow per call site (EINTR / would-block), alias-based result provenance, switch-table recovery, type-width check of the length path"),
+    "C10": dict(
+        text="Rules C10.1-C10.6 on psocket.c: every read of socket->fd in an operation is reached only after the closed test passed "
+             "(pp_socket_check summarised and itself checked, named exceptions with reasons); close sets fd=-1/closed/!connected/!listening on "
+             "success, is idempotent and is the only closer used by free; a non-blocking socket never reaches the condition wait or a retry "
+             "in the would-block scenario; poll gets the socket timeout when positive else a negative constant, fixed before the retry loop, "
+             "0 -> TIMED_OUT, 1 -> TRUE; getters return the field their setter writes; socket()/accept() descriptors get close-on-exec on "
+             "every success path. " + DECIDES % "C10",
+        technique="guard dataflow with dominance of the closed check, scenario flows (non-blocking would-block, successful creation), term evaluation of the poll timeout, field-agreement of getters/setters"),
 }
 
 NOT_YET = "check not yet armed (framework under construction); see DESIGN.md section 4 for the planned structural clauses"
